@@ -149,6 +149,8 @@ enum Letter {
     Listen(usize, AddrSel, u16),
     UdpConnect(usize, usize), // k-th held udp socket, peer = probe socket of host
     TcpConnect(usize, AddrSel, u16),
+    /// connect that is given up (future dropped) right after its SYN has been delivered
+    TcpConnectAbandon(usize, AddrSel, u16),
     Close(usize), // k-th held (non-probe) object
 }
 
@@ -521,11 +523,41 @@ impl SockSys {
                 let ip = self.a.get(a);
                 self.do_connect(h, ip, p, true)
             }
+            Letter::TcpConnectAbandon(h, a, p) => {
+                let ip = self.a.get(a);
+                self.do_connect_abandon(h, ip, p)
+            }
             Letter::Close(k) => {
                 let id = self.held_ids()[k];
                 self.do_close(id)
             }
         }
+    }
+
+    /// A connect whose future is dropped as soon as its SYN has been handed to the
+    /// destination host: whatever the handshake had created on either side must go away
+    /// again (the step-wise table-size invariant and the accept sweep see to that).
+    fn do_connect_abandon(&mut self, host: usize, ip: IpAddr, port: u16) -> Result<(), Violation> {
+        let what = format!("abandoned tcp-connect host{} -> {}:{}", host, ip, port);
+        let hosts = self.hosts;
+        let mut ex = Executor::new();
+        let sa = SocketAddr::new(ip, port);
+        ex.spawn(host as u32, async move {
+            let _ = TcpStream::connect(sa).await;
+        });
+        ex.run_until_stalled(1000, |t| turmoil_net::set_current(hosts[t as usize]));
+        let mut out = vec![];
+        self.guard.egress_all(&mut out);
+        for p in out {
+            self.guard.deliver(p);
+        }
+        self.cur(host);
+        drop(ex);
+        let mut ex = Executor::new();
+        self.pump(&mut ex, 12);
+        self.log.push(format!("{what} -> given up after the SYN"));
+        self.check_no_stray_accept(&what, None)?;
+        Ok(())
     }
 
     fn all_letters(&self) -> Vec<Letter> {
@@ -557,6 +589,7 @@ impl SockSys {
                 v.push(Letter::TcpConnect(0, a, self.cfg.ports[0]));
             }
             v.push(Letter::TcpConnect(1, AddrSel::A2, self.cfg.ports[0]));
+            v.push(Letter::TcpConnectAbandon(1, AddrSel::A2, self.cfg.ports[0]));
             if self.cfg.h2_binds {
                 v.push(Letter::TcpConnect(0, AddrSel::B1, self.cfg.ports[0]));
             }
@@ -570,6 +603,36 @@ impl SockSys {
             s.push_str(&format!("    model #{i}: {m:?}\n"));
         }
         s
+    }
+
+    /// drain every held UDP socket: exactly socket `want` (if any) observes [tag] from `src`
+    fn drain_expect(&mut self, what: &str, tag: u8, want: Option<usize>, src: SocketAddr) -> Result<(), Violation> {
+        // drain every held udp socket
+        for i in 0..self.model.len() {
+            if self.model[i].kind != Kind::Udp || !self.model[i].held {
+                continue;
+            }
+            self.cur(self.model[i].host);
+            let Handle::Udp(s) = &self.handles[i] else { continue };
+            let mut buf = [0u8; 4];
+            let mut seen = vec![];
+            while let Ok((n, f)) = s.try_recv_from(&mut buf) {
+                seen.push((buf[..n].to_vec(), f));
+            }
+            let expect_here = want == Some(i);
+            let ok = if expect_here { seen == vec![(vec![tag], src)] } else { seen.is_empty() };
+            if !ok {
+                return Err(Violation::new(
+                    "misrouted-datagram",
+                    format!(
+                        "{what} (source {src}): socket #{i} {}:{} on host{} (peer {:?}) observed {:?}; the reference table delivers it to {}",
+                        self.model[i].addr, self.model[i].port, self.model[i].host, self.model[i].peer, seen,
+                        want.map(|w| format!("socket #{w} {}:{} on host{}", self.model[w].addr, self.model[w].port, self.model[w].host)).unwrap_or("no socket".into())
+                    ),
+                ));
+            }
+        }
+        Ok(())
     }
 
     fn probe_sweep(&mut self) -> Result<(), Violation> {
@@ -611,32 +674,37 @@ impl SockSys {
                         });
                         pick.filter(|&i| self.model[i].peer.map(|p| p == src).unwrap_or(true))
                     });
-                    // drain every held udp socket
-                    for i in 0..self.model.len() {
-                        if self.model[i].kind != Kind::Udp || !self.model[i].held {
-                            continue;
-                        }
-                        self.cur(self.model[i].host);
-                        let Handle::Udp(s) = &self.handles[i] else { continue };
-                        let mut buf = [0u8; 4];
-                        let mut seen = vec![];
-                        while let Ok((n, f)) = s.try_recv_from(&mut buf) {
-                            seen.push((buf[..n].to_vec(), f));
-                        }
-                        let expect_here = want == Some(i);
-                        let ok = if expect_here { seen == vec![(vec![tag], src)] } else { seen.is_empty() };
-                        if !ok {
-                            return Err(Violation::new(
-                                "misrouted-datagram",
-                                format!(
-                                    "{what} (source {src}): socket #{i} {}:{} on host{} (peer {:?}) observed {:?}; the reference table delivers it to {}",
-                                    self.model[i].addr, self.model[i].port, self.model[i].host, self.model[i].peer, seen,
-                                    want.map(|w| format!("socket #{w} {}:{} on host{}", self.model[w].addr, self.model[w].port, self.model[w].host)).unwrap_or("no socket".into())
-                                ),
-                            ));
-                        }
-                    }
+                    self.drain_expect(&what, tag, want, src)?;
                 }
+            }
+        }
+        // --- UDP from every held, unconnected socket of the history to the probe sockets:
+        // the datagram must carry the sender's own binding as its source (the address the
+        // socket is bound to; for a wildcard bind the address the host uses towards the
+        // destination) and reach the probe socket of the destination's owner only
+        for i in 0..self.model.len() {
+            let m = self.model[i].clone();
+            if m.kind != Kind::Udp || !m.held || !m.alive || m.probe || m.peer.is_some() {
+                continue;
+            }
+            let mut dests = vec![self.a.lo];
+            if !m.addr.is_loopback() {
+                dests.push(self.a.host_addrs(1 - m.host)[0]);
+            }
+            for ip in dests {
+                tag += 1;
+                let what = format!("udp-probe#{tag} from held socket #{i} {}:{} on host{} -> {ip}:{PROBE_PORT}", m.addr, m.port, m.host);
+                self.cur(m.host);
+                let Handle::Udp(s) = &self.handles[i] else { continue };
+                if let Err(e) = s.try_send_to(&[tag], SocketAddr::new(ip, PROBE_PORT)) {
+                    return Err(Violation::new("probe-send", format!("{what}: send failed {}", errk(&e))));
+                }
+                let mut ex = Executor::new();
+                self.pump(&mut ex, 6);
+                let src_ip = if m.addr.is_unspecified() { self.a.src_for(m.host, ip) } else { m.addr };
+                let src = SocketAddr::new(src_ip, m.port);
+                let want = self.a.owner(m.host, ip); // probe sockets are model entries 0 and 1
+                self.drain_expect(&what, tag, want, src)?;
             }
         }
         // --- TCP
@@ -722,6 +790,7 @@ impl System for SockSys {
                     Letter::BindUdp(h, s, p) => format!("host{h}: UdpSocket::bind({}:{p})", self.a.get(s)),
                     Letter::Listen(h, s, p) => format!("host{h}: TcpListener::bind({}:{p})", self.a.get(s)),
                     Letter::TcpConnect(h, s, p) => format!("host{h}: TcpStream::connect({}:{p}) + accept", self.a.get(s)),
+                    Letter::TcpConnectAbandon(h, s, p) => format!("host{h}: TcpStream::connect({}:{p}) dropped once its SYN is delivered", self.a.get(s)),
                     _ => format!("{l:?}"),
                 }
             }
